@@ -1,6 +1,8 @@
 package props
 
 import (
+	"verif/harness/internal/msg"
+	"verif/harness/internal/obs"
 	"fmt"
 	"net/http"
 	"net/http/httptest"
@@ -597,6 +599,48 @@ func runC19(ctx Ctx) int {
 					} else {
 						run.Outcome("shared-option-value:ok")
 					}
+				}
+			}
+		}
+	}
+	// B5: the request reaches the handler with AN issuer already in its context (upstream middleware called ContextWithIssuer, another
+	// provider's interceptor sits in front) or with look-alike context values: the issuer in effect is still the one this provider
+	// derives (scheme and path from its configuration, host from the request), observed on the metadata entityID and a reply's Issuer
+	for _, mode := range []string{"", "static-path", "host", "forwarded"} {
+		for _, host := range []string{"idp.example", "tenant-y.example:8443"} {
+			for _, shape := range []string{"context-with-issuer", "context-with-values"} {
+				cfg := world.Config{IssuerMode: mode}
+				switch mode {
+				case "static-path":
+					cfg = world.Config{StaticIssuer: "https://idp.example/saml/"}
+				case "host", "forwarded":
+					cfg.HostPath = "saml"
+				}
+				w, err := stdWorld(cfg)
+				if err != nil {
+					run.HarnessError("B5: " + err.Error())
+					continue
+				}
+				run.Evaluations.Add(1)
+				run.AddStates(1)
+				want := cfg.EntityID(host)
+				mrep := w.Do(world.Shape(world.NewRequest("GET", host, w.Cfg.MetadataPath(), nil, "", nil), shape))
+				got := "(not served)"
+				if md, err := xt.Parse(mrep.Body); err == nil && mrep.Panic == "" {
+					got = md.A("entityID")
+				}
+				badAuthn := msg.Authn(msg.AuthnOpts{Issuer: msg.SPA().EntityID, Destination: "https://elsewhere.example/SSO"})
+				erep := w.Do(world.Shape(msg.Redirect{XML: badAuthn.Render(xt.Style{}), RelayState: "rs"}.Request(host, w.Cfg.SSOPath()), shape))
+				got2 := "(no message)"
+				if m := obs.Decode(erep); m.Response() != nil && m.Response().Child("Issuer") != nil {
+					got2 = m.Response().Child("Issuer").TextContent()
+				}
+				if got != want || got2 != want {
+					run.Outcome("issuer-in-context:differs")
+					run.Violate("issuer-taken-from-the-request-context-instead-of-the-configuration", "IssuerInterceptor", []string{"issuer-mode=" + mode, "host=" + host, "request=" + shape},
+						map[string]any{"metadata_entity_id": got, "reply_issuer": got2, "want": want}, nil)
+				} else {
+					run.Outcome("issuer-in-context:ok")
 				}
 			}
 		}
